@@ -589,3 +589,7 @@ def _variant_class(final, sub):
 def sample_view(sc, r):
     return {"hops": sc["hops"], "limit": sc.get("limit"), "subprotocols": sc.get("subprotocols"), "fault": sc.get("fault"),
             "api": sc.get("api")}
+
+
+# round 7 summary for the evidence file
+RULE = RULE + "  Round 7: family 'longline' - a 101 head lacking Upgrade / Connection / Sec-WebSocket-Accept whose over-long X-Padding line reads like that very field from offset N on (N = 1 KiB ... 64 KiB, thorough 256 B ... 256 KiB): it is a header value, not a field."
